@@ -82,6 +82,44 @@ def run(ck: Check):
                 cases.append(f"outputs {hx(s.encode())} {hx(o)} {hx(e)}")
                 impl.append("T" if got is True else ("F" if got is False else str(got)))
         ck.sample({"module": "outputs", "search": "he.lo", "regex": True, "stdout": "hello world\\n"})
+        # large outputs (more than a pipe buffer / read block): a multi-line search text placed at every offset
+        # around the 64 KiB and 128 KiB marks, with and without line breaks in the padding
+        big_child = ("import sys,os\n"
+                     "pad=(b'y'*63+b'\\n') if sys.argv[3]=='nl' else b'y'*64\n"
+                     "n=int(sys.argv[1])\n"
+                     "data=(pad*(n//64+1))[:n]+bytes.fromhex(sys.argv[2])\n"
+                     "(sys.stdout if sys.argv[4]=='o' else sys.stderr).buffer.write(data)\n"
+                     "os._exit(0)\n")
+        tail = b"\nline one\nline two\nend"
+        bjobs = []
+        for mark in (1 << 16, 1 << 17):
+            for k in (range(0, 26, (5 if quick else 1))):
+                for padkind in ("nl", "raw"):
+                    for needle in ("one\nline two", "line one\nl", "zz\nline"):
+                        for mode in (False, True):
+                            bjobs.append((mark - k, padkind, needle, mode, "o" if k % 2 == 0 else "e"))
+
+        def do_big(idx_j):
+            idx, (n, padkind, needle, mode, stream) = idx_j
+            prefix = os.path.join(work, f"b{idx}") if mode else None
+            args = ["-t", "20", "-s", needle, PY, "-c", big_child, str(n), tail.hex(), padkind, stream]
+            try:
+                return outputs.interesting(args, prefix)
+            except BaseException as exc:  # pylint: disable=broad-except
+                return "raised " + type(exc).__name__ + ": " + str(exc)[:80]
+
+        with ThreadPoolExecutor(16) as ex:
+            bres = list(ex.map(do_big, enumerate(bjobs)))
+        for (n, padkind, needle, mode, stream), got in zip(bjobs, bres):
+            ck.count("outputs-big")
+            ck.nontrivial(("outputs-big", n, padkind, needle, mode, stream))
+            want = needle.encode() in tail
+            if got is not want:
+                ck.violation(f"outputs -s {needle!r} on {n} bytes of padding ({padkind}) followed by {tail!r} on "
+                             f"std{'out' if stream == 'o' else 'err'} ({'log files' if mode else 'in memory'}): got {got}, "
+                             f"documented meaning {want}",
+                             {"module": "outputs", "search": needle, "padding": n, "padkind": padkind,
+                              "tail": tail.hex(), "files": mode, "stream": stream, "got": str(got)})
 
         # ------------------------------------------------------------ diff_test
         outs = [b"a\n", b"b\n", b""]
@@ -92,6 +130,12 @@ def run(ck: Check):
                 continue
             for mode in (False, True):
                 djobs.append((ca, oa, ea, cb, ob, eb, mode))
+        # always: the same bytes split differently over the two streams / same streams, different exit status
+        for a_, b_ in (((0, b"a\n", b""), (0, b"", b"a\n")), ((0, b"a\nb\n", b""), (0, b"a\n", b"b\n")),
+                       ((1, b"", b"a\nb\n"), (1, b"a\n", b"b\n")), ((0, b"a\n", b"b\n"), (0, b"a\n", b"b\n")),
+                       ((0, b"a\n", b"b\n"), (3, b"a\n", b"b\n")), ((0, b"ab", b""), (0, b"a", b"b"))):
+            for mode in (False, True):
+                djobs.append(a_ + b_ + (mode,))
         dchild = ("import sys,os\n"
                   "which=sys.argv[1]\n"
                   "c,o,e=(sys.argv[2:5] if which=='A' else sys.argv[5:8])\n"
